@@ -541,8 +541,10 @@ def eulernum(m, _cache={0:MPZ_ONE}):
         suma = 0
         for k in range(n+1, -1, -2):
             suma += a[k+1]
-            if n <= MAX:
-                _cache[n] = ((-1)**(n//2))*(suma // 2**n)
+        # store only the complete sum (storing inside the loop left a
+        # partial sum in the cache if the loop was interrupted)
+        if n <= MAX:
+            _cache[n] = ((-1)**(n//2))*(suma // 2**n)
         if n == m:
             return ((-1)**(n//2))*suma // 2**n
 
